@@ -17,7 +17,7 @@ pub fn prop() -> Prop {
     Prop {
         id: "C17",
         level: "model_checking",
-        rule: "sessions on a REAL retained (Compiler, VM) pair, every line fed through the real parse -> compile_ast -> run: (1) all sessions of <= 3 lines over a 52-line alphabet (declarations, re-declarations, assignments, expressions over earlier globals, a loop, self-contained function definitions with calls, a block with a local, heap-valued lines, three parse failures, compile failures at every statement position, run-time failures after k completed assignments and inside a nested call); (2) crash points: for every session of <= 2 lines and every line of it, the injected failure after k instructions for EVERY k up to the line's length, followed by probe lines reading every global; (3) breadth-first search to depth d over a 14-line core alphabet with states merged on the fingerprint of compiler + VM + model environment. (6) failing-lines ladder: N consecutive lines that fail inside a nested call with operands pending (N around every power of two up to 4097 / 16 385: about 20 operands are pending when each fails, so 3 300 lines would fill the 65 535-slot stack if anything accumulated), then a declaration, a 5 000-deep recursion and a read-back. (5) session-length ladder: N lines each adding a global and new constants (integers, floats and strings, or a function per line), N around every power of two up to 1025, three failing lines in the middle, earlier and newest globals read back along the way. (4) long sessions, deviation-bounded: four ordinary ten-line sessions (declarations, re-declarations, blocks, loops, functions, heap values, output), every crash point of every one of their lines with the rest of the session as continuation, and every insertion of ONE or TWO lines from a 36-line deviation set (parse / compile / run-time failures at several statement positions, in blocks, in functions, after output and after completed effects, misplaced stop, re-declaration, empty line) at every position: sessions of up to 12 lines. Oracle: a session model on the reference interpreter (a line that fails before running contributes nothing, a line that fails while running contributes exactly the effects it completed), equality of every line's value/output/error kind; for an injected failure the state afterwards must equal the model after SOME prefix of the line's effects; sessions without failing lines must also agree with eval of the concatenated text. The shadow heap stays on across lines",
+        rule: "sessions on a REAL retained (Compiler, VM) pair, every line fed through the real parse -> compile_ast -> run: (1) all sessions of <= 3 lines over a 52-line alphabet (declarations, re-declarations, assignments, expressions over earlier globals, a loop, self-contained function definitions with calls, a block with a local, heap-valued lines, three parse failures, compile failures at every statement position, run-time failures after k completed assignments and inside a nested call); (2) crash points: for every session of <= 2 lines and every line of it, the injected failure after k instructions for EVERY k up to the line's length, followed by probe lines reading every global; (3) breadth-first search to depth d over a 14-line core alphabet with states merged on the fingerprint of compiler + VM + model environment. (6) failing-lines ladder: N consecutive lines that fail inside a nested call with operands pending (N around every power of two up to 4097 / 16 385: about 20 operands are pending when each fails, so 3 300 lines would fill the 65 535-slot stack if anything accumulated), then a declaration, a 5 000-deep recursion and a read-back. (5) session-length ladder: N lines each adding a global and new constants (integers, floats and strings, or a function per line), N around every power of two up to 1025, three failing lines in the middle, earlier and newest globals read back along the way. (4) long sessions, deviation-bounded: six ordinary ten-line sessions (declarations, re-declarations, blocks, loops, functions, heap values, output), every crash point of every one of their lines with the rest of the session as continuation, and every insertion of ONE or TWO lines from a 43-line deviation set (three of them huge: code beyond 16-bit addressing) (parse / compile / run-time failures at several statement positions, in blocks, in functions, after output and after completed effects, misplaced stop, re-declaration, empty line) at every position: sessions of up to 12 lines. Oracle: a session model on the reference interpreter (a line that fails before running contributes nothing, a line that fails while running contributes exactly the effects it completed: the declarations of the failing statement and of those after it never happened, the names keep their earlier meaning or none), equality of every line's value/output/error kind; for an injected failure the state afterwards must equal the model after SOME prefix of the line's effects; sessions without failing lines must also agree with eval of the concatenated text. The shadow heap stays on across lines. (7) the REAL interactive prompt: the repository's command-line program (unoptimised and release build) fed the base sessions with every insertion of one deviation line (thorough: pairs) and sessions of 65 / 257 / 1 025 lines on standard input; after every prompt the line's output and value as the model has them, every failing line survived, the process ends with its input",
         assumptions: &[
             "calls to a function defined by an EARLIER line are outside the property (upstream limitation) and not in the alphabet",
             "results handed back by run() are not released by the harness in session mode (they may alias globals or constants)",
@@ -229,6 +229,9 @@ pub struct SessionResult {
     pub problem: Option<String>,
     pub key: u64,
     pub any_unspec: bool,
+    /// some line (up to the one the problem was found at) mentions a name whose declaration belonged to a line
+    /// that failed before the declaration completed
+    pub touched_ghost: bool,
     pub all_ok: bool,
     pub steps: Vec<u64>,
 }
@@ -242,6 +245,7 @@ pub fn run_session(lines: &[String]) -> SessionResult {
     let mut model = Interp::new();
     let mut problem = None;
     let mut any_unspec = false;
+    let mut touched_ghost = false;
     let mut all_ok = true;
     let mut steps = Vec::new();
     let mut outputs = String::new();
@@ -249,6 +253,11 @@ pub fn run_session(lines: &[String]) -> SessionResult {
     let (mut t_model, mut t_real) = (std::time::Duration::ZERO, std::time::Duration::ZERO);
     for (i, ast) in asts.iter().enumerate() {
         let t0 = std::time::Instant::now();
+        if let Ok(a) = ast {
+            if model.mentions_ghost(a) {
+                touched_ghost = true;
+            }
+        }
         let m = model_line(&mut model, ast);
         t_model += t0.elapsed();
         let t0 = std::time::Instant::now();
@@ -271,6 +280,8 @@ pub fn run_session(lines: &[String]) -> SessionResult {
         outputs.push_str(&s.output);
         last = Some(s);
     }
+    // (only a disagreement on a line can be the recorded finding; what is found after the session cannot)
+    let touched_ghost = touched_ghost && problem.is_some();
     // sessions without failing lines behave like the one-shot evaluation of the concatenation
     // (not for sessions with a huge line: the concatenation exceeds the code-size limits that no single line does, U9)
     if problem.is_none() && !any_unspec && all_ok && !lines.is_empty() && lines.iter().map(|l| l.len()).sum::<usize>() < 30_000 {
@@ -313,7 +324,7 @@ pub fn run_session(lines: &[String]) -> SessionResult {
         problem = Some(format!("dropping the compiler and then the machine at the end of the session: {bad:?}"));
     }
     verif::ledger_forget();
-    SessionResult { problem, key, any_unspec, all_ok, steps }
+    SessionResult { problem, key, any_unspec, touched_ghost, all_ok, steps }
 }
 
 trait TailOk {
@@ -369,12 +380,18 @@ fn crash_points(sh: &mut Shard, lines: &[String], j: usize, n: u64) {
         // the model after SOME prefix of the line's effects must explain everything observed
         let mut explained = false;
         let mut last_why = String::new();
+        let mut touched_ghost = false;
         for e in 0..=effects {
             let mut m = Interp::new();
             let mut ok = true;
             for (i, a) in asts.iter().enumerate() {
                 if i == j {
                     m.effect_limit = Some(e);
+                }
+                if let Ok(t) = a {
+                    if m.mentions_ghost(t) {
+                        touched_ghost = true;
+                    }
                 }
                 let mo = model_line(&mut m, a);
                 m.effect_limit = None;
@@ -407,6 +424,10 @@ fn crash_points(sh: &mut Shard, lines: &[String], j: usize, n: u64) {
                 break;
             }
         }
+        if !explained && touched_ghost && super::c11::known_predicate(sh, GHOST_PREDICATE) {
+            // the recorded finding KF-C17-01: a line after the cut mentions a name whose declaration the cut prevented
+            continue;
+        }
         if !explained {
             sh.violation(
                 "crash-point",
@@ -417,6 +438,11 @@ fn crash_points(sh: &mut Shard, lines: &[String], j: usize, n: u64) {
         }
     }
 }
+
+/// Matcher of the recorded finding KF-C17-01: the session mentions, at or before the line on which model and
+/// implementation part, a name whose top-level declaration belonged to a line that failed before the
+/// declaration completed (and that no later line declared again).
+const GHOST_PREDICATE: &str = "mention-of-a-name-whose-declaration-failed";
 
 fn session_case(sh: &mut Shard, family: &str, lines: &[String]) -> Option<SessionResult> {
     if !sh.mine() {
@@ -434,7 +460,9 @@ fn session_case(sh: &mut Shard, family: &str, lines: &[String]) -> Option<Sessio
         sh.nontrivial(&lines.join("\n"));
     }
     if let Some(why) = &r.problem {
-        if !crate::common::known_input(sh, &lines.join("\n")) {
+        if r.touched_ghost && super::c11::known_predicate(sh, GHOST_PREDICATE) {
+            // the recorded finding KF-C17-01
+        } else if !crate::common::known_input(sh, &lines.join("\n")) {
             sh.violation("session", json!({"session": lines}), why.clone());
         }
     }
@@ -722,17 +750,23 @@ fn failing_lines_ladder(sh: &mut Shard) {
 /// What the model says the interactive prompt prints for a session: per line the output of its `print` calls,
 /// then the line's value (nothing for null; None where the value is not specified: U4, U5, or a failing line
 /// shows nothing). None as a whole when some line is unspecified.
-fn repl_expectation(lines: &[String]) -> Option<Vec<(String, Option<String>)>> {
+fn repl_expectation(lines: &[String]) -> Option<Vec<(String, Option<String>, bool)>> {
     let asts = parse_all(lines);
     let mut model = Interp::new();
     let mut out = Vec::new();
+    let mut touched = false;
     for ast in asts.iter() {
+        if let Ok(a) = ast {
+            if model.mentions_ghost(a) {
+                touched = true;
+            }
+        }
         let m = model_line(&mut model, ast);
         match &m.end {
             End::Unspec(_) | End::Diverge => return None,
-            End::Error(_) => out.push((m.output.clone(), Some(String::new()))),
-            End::Value(None) => out.push((m.output.clone(), None)),
-            End::Value(Some(_)) => out.push((m.output.clone(), model.last_shown.clone())),
+            End::Error(_) => out.push((m.output.clone(), Some(String::new()), touched)),
+            End::Value(None) => out.push((m.output.clone(), None, touched)),
+            End::Value(Some(_)) => out.push((m.output.clone(), model.last_shown.clone(), touched)),
         }
     }
     Some(out)
@@ -744,7 +778,7 @@ fn repl_expectation(lines: &[String]) -> Option<Vec<(String, Option<String>)>> {
 /// for null and for a failing line, whose error goes to standard error), the process survives every failing
 /// line and ends when the input ends. Sessions: the base sessions, every insertion of one deviation line at
 /// every position (thorough: also every pair at two positions of the first base), sessions of up to 1 025 lines.
-pub fn repl_sessions(sh: &mut Shard, class: &str, only: Option<&[String]>) {
+pub fn repl_sessions(sh: &mut Shard, class: &str, only: Option<&[String]>, compare_values: bool) {
     use std::io::Write;
     use std::process::{Command, Stdio};
     let (Ok(dev), Ok(rel)) = (std::env::var("NLMC_CLI_DEV"), std::env::var("NLMC_CLI_REL")) else {
@@ -857,12 +891,14 @@ pub fn repl_sessions(sh: &mut Shard, class: &str, only: Option<&[String]>) {
             // after every prompt: the line's output, then its value
             let chunks: Vec<&str> = stdout.split(">>> ").collect();
             let mut why: Option<String> = None;
+            let mut ghost_so_far = false;
             if !chunks[0].is_empty() {
                 why = Some(format!("output before the first prompt: {:?}", chunks[0]));
             } else if chunks.len() < lines.len() + 1 {
                 why = Some(format!("{} prompts for {} lines", chunks.len() - 1, lines.len()));
-            } else {
-                for (i, (printed, shown)) in expect.iter().enumerate() {
+            } else if compare_values {
+                for (i, (printed, shown, touched)) in expect.iter().enumerate() {
+                    ghost_so_far = *touched;
                     let chunk = chunks[i + 1];
                     let Some(rest) = chunk.strip_prefix(printed.as_str()) else {
                         why = Some(format!("line {} ({:?}) printed {chunk:?}, the model prints {printed:?} first", i + 1, lines[i]));
@@ -885,6 +921,10 @@ pub fn repl_sessions(sh: &mut Shard, class: &str, only: Option<&[String]>) {
                 }
             }
             if let Some(w) = why {
+                if ghost_so_far && super::c11::known_predicate(sh, GHOST_PREDICATE) {
+                    // the recorded finding KF-C17-01
+                    break;
+                }
                 sh.violation(class, desc, format!("{bname} prompt: {w}"));
                 break;
             }
@@ -894,7 +934,7 @@ pub fn repl_sessions(sh: &mut Shard, class: &str, only: Option<&[String]>) {
 
 fn run(sh: &mut Shard) {
     let tier = sh.cfg.tier;
-    repl_sessions(sh, "repl", None);
+    repl_sessions(sh, "repl", None, true);
     failing_lines_ladder(sh);
     session_ladder(sh);
     long_sessions(sh);
@@ -995,7 +1035,7 @@ fn run(sh: &mut Shard) {
 fn replay(sh: &mut Shard, case: &Value) {
     if let Some(a) = case["repl_session"].as_array() {
         let lines: Vec<String> = a.iter().filter_map(|x| x.as_str().map(|s| s.to_string())).collect();
-        repl_sessions(sh, "repl", Some(&lines));
+        repl_sessions(sh, "repl", Some(&lines), true);
         return;
     }
     sh.mine();
